@@ -25,7 +25,10 @@ LEVEL_TEXT = ('static analysis: (D1) a kind system for index values (family LABE
               'first start / last end / summed probes; (D3a) get_gene_intervals on literal bins gives each gene its sorted bin starts and the '
               'furthest bin end (nested bins, rows listed far-to-near); (D3) get_breakpoints reports a gene <=> first start < segment end < gene '
               'end and both side counts >= min_probes, counted by start < end / start >= end, only between segments of one chromosome, also when '
-              "the next segment starts after a gap. Does not decide behaviour on interleaved genes (outside the property's premise).")
+              'the next segment starts after a gap. D3 also has two genes whose spans overlap (every gene is examined for every boundary) and D2 '
+              "runs group_by_genes end to end with the real by_gene on literal bins holding '-', '.', 'CGH' and Antitarget names: exactly the "
+              'named genes are reported, with the bins between their first and last bin. Does not decide behaviour on interleaved genes (outside '
+              "the property's premise).")
 TECHNIQUE = ("index-kind type system over one function's def-use chains; bounded exhaustive interpretation of by_gene on literal tables with "
              'literal index labels; abstract interpretation of the summary functions on symbolic rows')
 
@@ -387,6 +390,9 @@ def run(chk):
     d2(chk, prog)
     d3a(chk, prog)
     d3(chk, prog)
+    chk.clause("CLI", "the `genemetrics` / `breaks` command lines: bins and segments in their roles, threshold, minimum bin count and sex options reach the report functions")
+    from .. import cliglue
+    cliglue.check_reports(chk, prog)
 
 
 _C = "cnvlib/cnary.py"
